@@ -28,7 +28,7 @@ RULE = ("mode cases: every valid local mode of <=4 flags (thorough: all 2304 val
         "(mostly invalid) modes. cwd cases: seeded config trees (nested files in 7 directories + 5 symbolic links to "
         "directories at other depths, relative/absolute/detour spellings, a quarter of them through a link, some with "
         "'..' after a link, ~30% of the config and list files referred to through a symbolic link to the file lying in "
-        "another directory, list files loadable and not loadable as YAML, missing/malformed files and broken values as failure "
+        "another directory, sub-config files whose content is a JSON/YAML SEQUENCE of paths (List[path] with enable_path), list files loadable and not loadable as YAML, missing/malformed files and broken values as failure "
         "points) through parse_args(--cfg), parse_path, default_config_files, get_defaults, --mid <file>, --mid=<file>. Distinct = distinct (flag set, c-count, probed fact "
         "record, outcome) resp. distinct (entry point, tree, outcome); non-trivial = at least one flag resp. at "
         "least one nested file or path value.")
@@ -238,6 +238,15 @@ def gen_cwd_case(rng, tier):
 
     def list_node(key, here, allow_file):
         n = rng.randint(1, 3)
+        if allow_file and rng.random() < 0.3:
+            # a sub-config file whose content is a JSON/YAML SEQUENCE of paths (not a mapping, not a line-per-path list
+            # file): parse_value_or_config loads it, and the items are adapted inside the directory of that file
+            at, ref, d = place(rng.choice(DIRS), "seq", rng.choice(["yaml", "json"]))
+            items = [path_node(key, d) for _ in range(n)]
+            items = [i["given"] for i in items if i["t"] == "path"] or ["missing.txt"]
+            missing = rng.random() < pfail
+            return {"t": "seqfile", "key": key, "given": rel_spelling(rng, ref, here), "at": None if missing else at,
+                    "items": items, "flow": rng.random() < 0.5}
         if allow_file and rng.random() < 0.6:
             # a list file: >= 2 lines (a single line is read back by YAML as a plain path, another code path);
             # half of them spelled absolutely or placed next to the referring file (inside the guard of
@@ -372,6 +381,10 @@ def key_ids(case):
                 if not n.get("wellformed", True):
                     body = g_list(["NBad"], "node")
                 out.append("NLoad %s %s" % (g_str(n["given"]), body))
+            elif t == "seqfile":
+                # same shape as a nested config file: the file is entered, every item is adapted there
+                items = ["(NPath %s %s)" % (g_nat(fresh("%s[%d]" % (key, i))), g_str(g)) for i, g in enumerate(n["items"])]
+                out.append("NLoad %s %s" % (g_str(n["given"]), g_list(items, "node")))
             elif t == "listfile":
                 items = ["NPath %s %s" % (g_nat(fresh("%s[%d]" % (key, i))), g_str(g)) for i, g in enumerate(n["items"])]
                 # the content of the list file is loadable as YAML (one folded plain scalar) unless its first line
@@ -429,7 +442,7 @@ def _depth(ns):
     for n in ns:
         if n["t"] in ("load", "inline"):
             d = max(d, (1 if n["t"] == "load" else 0) + _depth(n["body"]))
-        elif n["t"] == "listfile":
+        elif n["t"] in ("listfile", "seqfile"):
             d = max(d, 1)
     return d
 
@@ -478,7 +491,7 @@ def shrink(case):
                     yield ns[:i] + [dict(n, body=b)] + ns[i + 1:]
             # a YAML-loadable list file keeps >= 2 lines (ASSUMPTIONS: a single line takes another code path)
             keep = 2 if n["t"] == "listfile" and not n["items"][0].startswith("@") else 1
-            if n["t"] in ("inlist", "listfile") and len(n["items"]) > keep:
+            if n["t"] in ("inlist", "listfile", "seqfile") and len(n["items"]) > keep:
                 yield ns[:i] + [dict(n, items=n["items"][:keep])] + ns[i + 1:]
 
     for t in variants(case["tree"]):
